@@ -342,6 +342,29 @@ func (x *Exec) lookupLocal(fr *Frame, name string, at *ssa.BasicBlock, st *State
 	if best == nil {
 		return Val{}, false
 	}
+	if !best.isAdr && best.obj != nil {
+		// The variable lives in a cell (captured by a closure, or its address is taken): a
+		// value seen at an earlier read says nothing about later stores, the cell does.
+		var cell *varCand
+		for i := range cands {
+			c := &cands[i]
+			if !c.isAdr || c.obj != best.obj {
+				continue
+			}
+			if _, ok := fr.vals[c.v]; !ok {
+				continue
+			}
+			if !(c.blk == at && (c.idx < 0 || x.lookupAtEnd && (!x.lookupLimited || c.idx < x.lookupLimit)) || c.blk != at && c.blk.Dominates(at)) {
+				continue
+			}
+			if cell == nil || cell.blk != c.blk && cell.blk.Dominates(c.blk) || cell.blk == c.blk && c.idx > cell.idx {
+				cell = c
+			}
+		}
+		if cell != nil {
+			best = cell
+		}
+	}
 	v := x.val(fr, best.v)
 	if best.isAdr {
 		t := pointee(best.v.Type())
